@@ -235,7 +235,7 @@ def solve_reentrant(prog: Program, rep, RID: str):
             if isinstance(st, ast.Assign) and dotted(st.targets[0]) == flag and isinstance(st.value, ast.Constant) and st.value.value is True:
                 raised = True
         cleared = any(isinstance(st, ast.Assign) and dotted(st.targets[0]) == "self._solution" and isinstance(st.value, ast.Constant) and st.value.value is None
-                      for st in ast.walk(rebuilt))
+                      for st in list(ast.walk(rebuilt)) + [p for p in prologue if isinstance(p, ast.Assign)])
         if raised and cleared:
             rep.ok(RID, key, f"a second call re-installs the minimum-error model first (flag {flag}, cached solution dropped)", f.loc(rebuilt))
         elif not raised:
